@@ -88,11 +88,16 @@ CLAIMED = {
           "are recorded by real backends (antenna or 2-antenna array with delays, digitiser on/off, both "
           "orientations, three sample rates, random start channel); the antenna request sequence, files and "
           "PKTIDX must equal TLC's and every data byte must equal the harness-owned reference pipeline (quantise, "
-          "FIR + explicit DFT, requantise, GUPPI encode) fed by a same-seed twin antenna in one request."),
+          "FIR + explicit DFT, requantise, GUPPI encode) fed by a same-seed twin antenna in one request. Leg T: real "
+          "record() executions at realistic sizes (1024 branches, 8 taps, arrays with delays, second recordings on the "
+          "same backend) and the repository's own voltage tests run under a run-time recorder (harness/record.py, pytest "
+          "plugin verif_recorder) are validated event by event (header/PKTIDX, request size and start flag, clock advance "
+          "of the source and of every stream, channelize input/cache/output rows, updated num_subblocks, block count) "
+          "against BackendTrace.tla."),
     note=("Trusted: TLC, the reference pipeline and GUPPI encoder/parser in /verif/harness, numpy arithmetic. "
           "Statistics from a common prefix (period -1); 1-LSB tolerance only within 1e-7 of a rounding tie of the "
           "reference. Bounded: taps 2-3, <= 7 windows/block, <= 3 blocks, branches 8/16."),
-    technique="TLA+ model (TLC exhaustive) + spec-generated configurations recorded by the implementation, bytes compared with a reference pipeline",
+    technique="TLA+ model (TLC exhaustive) + spec-generated configurations recorded by the implementation (bytes vs reference pipeline) + trace validation of recorded executions",
     design_ref="DESIGN.md 4.10, 5 (C02)", engine="backend"),
  "C04": dict(
     text=("RawFiles.tla models GUPPI framing (cards, DIRECTIO padding rule, BLOCSIZE) and the library's readers by their "
